@@ -211,13 +211,49 @@ def translate(repo: Path):
             return d if isinstance(d, bool) else None
 
         sites.append((f"{key[0]}:{wfn.lineno} {key[1]}.{key[2]} [called with defaults]", True, dflt(s), dflt(o)))
+    # 3. how the checkpoint NAME reaches the object: it must be the configured string itself
+    name_sites = []
+    for f in files:
+        try:
+            tree = ast.parse(f.read_text())
+        except SyntaxError:
+            continue
+        rel = str(f.relative_to(repo))
+        for n in ast.walk(tree):
+            tgt = val = None
+            if isinstance(n, ast.Assign) and len(n.targets) == 1:
+                t = n.targets[0]
+                # optionals['checkpoint'] = ... / kwargs['checkpoint'] = ... / self.checkpoint = ...
+                if (isinstance(t, ast.Subscript) and isinstance(t.slice, ast.Constant) and t.slice.value == "checkpoint") or (
+                        isinstance(t, ast.Attribute) and t.attr == "checkpoint"):
+                    tgt, val = t, n.value
+            if tgt is None:
+                continue
+            name_sites.append((f"{rel}:{n.lineno} {ast.unparse(tgt)} = {ast.unparse(val)[:60]}", _name_expr_ok(val)))
     if not any(sf for _, sf, _, _ in sites):
         ok = False
         notes.append("no checkpoint-writing call site found")
-    return _emit([(l, sf, lean_opt(s), lean_opt(o)) for l, sf, s, o in sites], ok, notes, raw=sites)
+    return _emit([(l, sf, lean_opt(s), lean_opt(o)) for l, sf, s, o in sites], ok, notes, raw=sites, names=name_sites)
 
 
-def _emit(sites, ok, notes, raw=None):
+def _name_expr_ok(e) -> bool:
+    """the checkpoint name is stored exactly as configured: a string literal / None / False, the value read from
+    the configuration (`data['checkpoint']`, `kwargs.get('checkpoint', <literal>)`) or a plain parameter"""
+    if isinstance(e, ast.Constant):
+        return e.value is None or isinstance(e.value, (str, bool))
+    if isinstance(e, ast.Subscript) and isinstance(e.slice, ast.Constant) and e.slice.value == "checkpoint" \
+            and isinstance(e.value, ast.Name):
+        return True
+    if isinstance(e, ast.Call) and isinstance(e.func, ast.Attribute) and e.func.attr == "get" \
+            and isinstance(e.func.value, ast.Name) and e.args and isinstance(e.args[0], ast.Constant) \
+            and e.args[0].value == "checkpoint" and all(isinstance(a, ast.Constant) for a in e.args[1:]):
+        return True
+    if isinstance(e, ast.Name) and e.id == "checkpoint":
+        return True
+    return False
+
+
+def _emit(sites, ok, notes, raw=None, names=None):
     rows = ",\n  ".join(
         f'⟨"{l}", {"true" if sf else "false"}, {s}, {o}⟩' for l, sf, s, o in sites
     )
@@ -230,6 +266,11 @@ def _emit(sites, ok, notes, raw=None):
         "structure CallSite where\n  site : String\n  sameFile : Bool\n  safely : Option Bool\n  overwrite : Option Bool\nderiving Repr, DecidableEq\n\n"
         f"def scanOk : Bool := {'true' if ok else 'false'}\n\n"
         f"def callSites : List CallSite := [\n  {rows}\n]\n\n"
+        "/-- every place where a checkpoint NAME is stored (from_json option handling, constructors), with whether the\n"
+        "    stored value is the configured string itself (no realpath / abspath / join / replace …) -/\n"
+        "def nameSites : List (String × Bool) := [\n  "
+        + ",\n  ".join('("%s", %s)' % (l.replace('\\', '/').replace('"', "'"), "true" if okk else "false") for l, okk in (names or []))
+        + "\n]\n\n"
         "end TTGen.C18_Callers\n"
     )
     return lean, ok, notes, (raw or [])
